@@ -1,4 +1,4 @@
-use std::{collections::HashMap, str::FromStr};
+use std::{collections::BTreeMap, str::FromStr};
 
 use unicode_segmentation::UnicodeSegmentation;
 
@@ -73,7 +73,7 @@ fn shannon_entropy(value: &Value, segmentation: &Segmentation) -> Resolved {
         Segmentation::Codepoint => {
             let string = value.try_bytes_utf8_lossy()?;
             let chars = string.chars();
-            let mut counts = HashMap::new();
+            let mut counts = BTreeMap::new();
             let mut total_len = 0;
 
             for char in chars {
@@ -86,7 +86,7 @@ fn shannon_entropy(value: &Value, segmentation: &Segmentation) -> Resolved {
         Segmentation::Grapheme => {
             let string = value.try_bytes_utf8_lossy()?;
             let graphemes = string.graphemes(true);
-            let mut counts = HashMap::new();
+            let mut counts = BTreeMap::new();
             let mut total_len = 0;
 
             for grapheme in graphemes {
